@@ -94,12 +94,38 @@ def _truth(x):
     return bool(x)
 
 
+class _Sender(object):
+    """senders compare by value: every use below creates a fresh, equal object (the property says 'equals')"""
+    def __init__(self, k):
+        self.k = k
+
+    def __eq__(self, other):
+        return isinstance(other, _Sender) and other.k == self.k
+
+    def __ne__(self, other):
+        return not self.__eq__(other)
+
+    def __hash__(self):
+        return hash(('sender', self.k))
+
+    def __repr__(self):
+        return 'sender%d' % self.k
+
+
+class _Senders(object):
+    def __getitem__(self, i):
+        return _Sender(i)
+
+    def index(self, s):
+        return s.k
+
+
 def run_emitter(evmod, script):
     """Run a script on a fresh EventEmitter and on the reference model; return failure or None.
     Values in the script may be symbolic (events as ints 0/1, senders as ints, flags as bools)."""
     em = evmod.EventEmitter()
     log = []
-    senders = [object(), object()]
+    senders = _Senders()
 
     def mkfun(cid, name):
         def f(sender, *args, **kwargs):
@@ -141,7 +167,7 @@ def run_emitter(evmod, script):
         elif op == 'unconnect_sender':
             snd = senders[1 if _truth(vals['sender'] == 1) else 0]
             em.unconnect(snd)
-            regs = [r for r in regs if r[1] is not snd]
+            regs = [r for r in regs if r[1] is None or r[1] != snd]
         elif op == 'unconnect_self':
             em.unconnect(obj)
             regs = [r for r in regs if r[2] != 2]
@@ -172,7 +198,7 @@ def run_emitter(evmod, script):
                         ret = em.emit(EVENTS[evi], snd, arg, **kw)
             silenced = silent_flag or par > 0
             order = [r for r in regs if not r[3]] + [r for r in regs if r[3]]
-            exp = [r for r in order if r[0] == evi and (r[1] is None or r[1] is snd)]
+            exp = [r for r in order if r[0] == evi and (r[1] is None or r[1] == snd)]
             if silenced:
                 exp = []
             elif single:
